@@ -177,6 +177,48 @@ def unitPrecOf (w : Wiring) (n : Nat) : PVal → Except PErr UnitPrec
       else if !symClose n P then .error .asym
       else fullPrecOf w n M
 
+/-! ### branch 4 above `MIN_DIM_SPARSE`, and sparse-matrix valued callables (third pass)
+
+  dense full matrix, `dim > 75` (`sparse_flag`):  `np.allclose(M, M.T)` else ValueError; `s, u = eigh(M)` (reads the lower
+      triangle); `min(s) < -eps` → ValueError; prec: `sqrtprec = (u sqrt(s)).T`; cov: `sqrtprec = (u sqrt(pinv s)).T`;
+      `rank = #{s > eps}`.  For a positive definite matrix `LᵀL = M` resp. `M⁻¹` and `rank = dim`.
+  scipy sparse matrix (any dim, no cholmod): no symmetry test; prec: `sqrtprec = sparse_cholesky(prec)`; cov:
+      `prec = spa.linalg.inv(cov); sqrtprec = sparse_cholesky(prec)`; `rank = structural_rank`, `logdet = None`
+      (`Gaussian.logpdf` then raises NotImplementedError: there is no density to compare with — tie only).
+  Leaf factorisations are replaced by certificates: `posDefCert` (exact `L D Lᵀ`, `d > 0`) decides definiteness, and for the
+  covariance wiring `u = C⁻¹ v` is obtained from the `L D Lᵀ` factors by substitution and accepted only if `C u = v`
+  checks exactly; then `‖L v‖² = vᵀ C⁻¹ v = vᵀ u`.  Rank-deficient PSD input (accepted by `eigh` with `rank < dim`) is
+  outside the modelled range (`none`). -/
+
+/-- `u` with `L D Lᵀ u = v` by forward / diagonal / backward substitution (`L` unit lower triangular) -/
+def ldlSolve (n : Nat) (L : Nat → Nat → Rat) (d : Nat → Rat) (v : Nat → Rat) : Array Rat :=
+  let y := (List.range n).foldl (fun (y : Array Rat) i =>
+    y.push (v i - (List.range i).foldl (fun s k => s + L i k * y.getD k 0) 0)) (#[] : Array Rat)
+  let z := fun k => y.getD k 0 / d k
+  (List.range n).foldl (fun (u : Array Rat) t =>
+    let i := n - 1 - t
+    u.setIfInBounds i (z i - (List.range (n - 1 - i)).foldl (fun s m => let k := i + 1 + m; s + L k i * u.getD k 0) 0))
+    (Array.replicate n 0)
+
+/-- certificate check `C u = v` on the first `n` components -/
+def solvesCert (n : Nat) (C : Nat → Nat → Rat) (u v : Nat → Rat) : Bool :=
+  allTo n (fun i => sumTo n (fun j => C i j * u j) == v i)
+
+/-- the quadratic form `‖L (Ax-b)‖²` for a positive definite full matrix in the large-dense / sparse branches
+    (`none`: outside the modelled range) -/
+def bigQuad (w : Wiring) (n : Nat) (sparse : Bool) (M : Mat) (v : Nat → Rat) : Except PErr (Option Rat) :=
+  let P := if sparse then matFn M else lowerSym (matFn M)
+  if !squareOf n M then .error .shape
+  else if !sparse && !symClose n (matFn M) then .error .asym
+  else if !posDefCert n P then (if sparse || !(allTo n (fun i => decide (0 < P i i))) then .error .notPD else .ok none)
+  else match w with
+    | .prec => .ok (some (quadForm n P v))
+    | .cov =>
+      let F := ldl n P
+      let u := ldlSolve n (fun i k => (F.1.getD i #[]).getD k 0) (fun k => F.2.getD k 0) v
+      let uf := fun i => u.getD i 0
+      if solvesCert n P uf v then .ok (some (sumTo n (fun i => v i * uf i))) else .ok none
+
 /-- the `Quad` of a Gaussian likelihood with unit precision `U` on `n` components: the sampler
     (`‖L(Ax-b)‖²`) and the density (`Gaussian._logupdf`) use the same `sqrtprec`. -/
 def gaussQuadU (n : Nat) (U : UnitPrec) (ax b : List Rat) : Quad :=
